@@ -40,7 +40,8 @@ def op? (n : Nat) (t : String) : Option Op :=
   | [c, i] => do
     let i ← (String.singleton i).toNat?
     if i < n then
-      (if c = 'p' then pure (.ping i) else if c = 'r' then pure (.reinstate i) else if c = 'a' then pure (.age i) else none)
+      (if c = 'p' then pure (.ping i) else if c = 'r' then pure (.reinstate i) else if c = 'a' then pure (.age i)
+       else if c = 'R' then pure (.restartPub i) else none)
     else none
   | _ => none
 
@@ -136,6 +137,7 @@ def opName : Op → String
   | .reinstate i => "r" ++ toString i
   | .age i => "a" ++ toString i
   | .failPre i k => "F" ++ toString i ++ toString k
+  | .restartPub i => "R" ++ toString i
 
 /-- scripts with scripted PreStart failures (`F`): the property text does not say what a restart that cannot
     re-run PreStart must end in, so only its restart clause is judged on them — a member that WAS restarted
